@@ -447,6 +447,9 @@ func corpusHandmade() {
 						c.LockTime = lt
 						c.Ins[0].Sequence = sq
 						c.Version = uint32(1 + g.Intn(2))
+						if g.Bool() { // BIP68/112 read the version as an UNSIGNED 32-bit number: 0 and 1 fail CSV, everything else does not
+							c.Version = []uint32{0, 1, 2, 3, 0x7fffffff, 0x80000000, 0x80000001, 0x80000002, 0xfffffffe, 0xffffffff}[g.Intn(10)]
+						}
 						run(c)
 					}
 				}
